@@ -155,7 +155,8 @@ def install(ex, game, env):
         out = []
         for k, v in st.store.items():
             if k[0] == 'H' and isinstance(v, tuple) and len(v) == 5 and isinstance(v[1], tuple) and len(v[1]) == 7 and isinstance(v[1][1], NodeRef):
-                out.append((k, v[1][1].n if v[1][1].alts is None else -1))
+                out.append((k, v[1][1].n if v[1][1].alts is None else -1,
+                            v[2][1].n if isinstance(v[2], tuple) and isinstance(v[2][1], NodeRef) and v[2][1].alts is None else -1))
         return tuple(sorted(out))
     ex.exit_split = board_key
     ex.static_values[TT] = MapV({})
